@@ -177,6 +177,38 @@ def run_rules(ctx, chk):
                        'Ok result is %s' % (('&self.%s' % cache) if cache else fmt(p.value)[:80]))
                 chk.ob('C02.S3', 'snapshot:cache-untouched-without-accept', not [k for k in stores if r.is_cache_field(k)], p.where[2],
                        'cache fields assigned on a non-accepting path: %s' % sorted(k for k in stores if r.is_cache_field(k)))
+        # S2 over two iterations: on EVERY acceptance -- also one reached on a retry -- the record copy that is cached lies
+        # between the two generation loads that are compared: first load, copy, acquire fence, second load. A copy kept
+        # from an earlier iteration and validated against generations loaded after it proves nothing (seed W1).
+        r2 = ReaderModel(fb, chk, 'C02.S2', unroll=2 if chk.tier == 'thorough' else 1)
+        n_br = 0
+        if r2.ok:
+            for p, evs in zip(r2.paths, r2.evs):
+                stores = r2.self_stores(p)
+                cf = [k for k, v in stores.items() if is_record_read(v) and r2.is_cache_field(k)]
+                if not cf:
+                    continue
+                val = stores[cf[0]]
+                gl = {e.term: e for e in evs if e.kind == 'gload'}
+                rd = {e.term: e for e in evs if e.kind == 'dread'}
+                pair = None
+                for a, b in common.known_equal(p.conds):
+                    if a in gl and b in gl and a != b:
+                        pair = sorted((gl[a], gl[b]), key=lambda e: e.n)
+                reads = [rd[t_] for t_ in read_terms(val) if t_ in rd]
+                ok_b = False
+                detail = 'acceptance without two compared generation loads'
+                if pair and reads and len(reads) == len(read_terms(val)):
+                    g1, g2 = pair
+                    fenced = all(any(e.kind == 'fence' and e.order in ACQ_OK and x.n < e.n < g2.n for e in evs) for x in reads)
+                    ok_b = all(g1.n < x.n < g2.n for x in reads) and fenced
+                    detail = ('generation load at %s, record copy at %s, generation load at %s (effect order %s)' % (
+                        g1.site, sorted({x.site for x in reads}), g2.site, [g1.n] + sorted(x.n for x in reads) + [g2.n])) + \
+                        ('' if ok_b else ' -- the cached copy was not taken between the two compared loads (with an acquire fence '
+                         'before the second): the equality of the generations does not cover it')
+                n_br += 1
+                chk.ob('C02.S2', 'snapshot:accepted-copy-between-compared-loads', ok_b, p.where[2], detail)
+            chk.floor('C02.S2', 'acceptance paths over two iterations', n_br, 1)
         # the cache snapshot() falls back on starts out as the reader's empty initial record: the constructor may not fill
         # it (or the cached generation) from the mapping, where an update can be in flight
         rnew = [b for b in fb.bodies(common.SHM) if b.name == 'new' and (b.impl_self or '').endswith('ShmReader') and b.defkind != 'Closure']
